@@ -69,6 +69,17 @@ CHECKS['C17'] = dict(
          '"not in the stabilizer group" is C04. Packing certificates of DESIGN section 5 were replaced by the verified search.',
     technique='Coq theorem (complete weight-bounded search + CSS reduction) evaluated in the kernel on dumped tables')
 
+CHECKS['C03'] = dict(
+    category='proof',
+    text=('Unbounded Coq theorems: the symplectic form is symmetric, alternating, bilinear; syndrome is linear; counting overlaps in '
+          'w-bit integers (any w >= 1, any overlap weight) then reducing mod 2 equals the symplectic form (uint8 wrap is harmless); '
+          'string<->bvector, bvector<->integer conversions are mutually inverse, weights agree. Kernel-evaluated correspondence: all '
+          'ordered pairs on n<=3 in all representation pairs, random stacks up to n=600 (density up to 1.0), converters up to 70 qubits '
+          '(incl. unsorted CSR rows), measure_syndrome on unit vectors.'),
+    design_ref='DESIGN.md section 5 C03',
+    note=TB + 'Models of bs_prod (dense fixed-width path), converters (Convert.v) hand-written; NumPy/scipy are exercised, not modelled.',
+    technique='Coq theorems (bilinear form, fixed-width wrap, converter inverses) + kernel-evaluated correspondence')
+
 NOT_APPLICABLE = {}
 
 PENDING = ['C02', 'C03', 'C04', 'C05', 'C06', 'C07', 'C08', 'C09', 'C10', 'C11', 'C12', 'C13', 'C14', 'C15',
